@@ -267,6 +267,8 @@ func (g *Cfg) WrapOf(t *rapid.T, k string, c *Spec) *Spec {
 		s.S = []string{str(t, "err"), str(t, "name")}
 	case "uwrapformatter":
 		s.S = []string{str(t, "msg"), str(t, "det")}
+	case "uhinter":
+		s.S = []string{str(t, "hint"), str(t, "detail")}
 	case "uwrapsafefmt":
 		s.S = []string{str(t, "safe"), str(t, "msg")}
 	case "stack", "assertion", "handled", "domhandled", "handleassert", "pkgstack", "uwraptransparent":
